@@ -172,9 +172,11 @@ def gen_cases(rng, tier):
         add(t0, t1, {'str': '%d%s' % (n, u)})
     for _ in range(200 * N):       # compound strings (day <= 28 start, months only with non-negative small day parts)
         a = day28(rng)
-        span = rng.randrange(0, 900)
+        span = rng.choice([rng.randrange(0, 900), rng.randrange(0, 60)])
         parts = rng.choice([[('m', 1), ('d', 0)], [('y', 1), ('m', -3)], [('w', 1), ('d', 2)], [('d', 1), ('h', 12)], [('m', 1), ('w', 1)],
-                            [('b', 5), ('d', 2)], [('q', 1), ('m', 1)], [('d', 3), ('b', 1)], [('w', 2), ('d', -1)]])
+                            [('b', 5), ('d', 2)], [('q', 1), ('m', 1)], [('d', 3), ('b', 1)], [('w', 2), ('d', -1)],
+                            # leading part opposes the net direction (the guard must look at the whole bump)
+                            [('d', -1), ('w', 1)], [('d', 1), ('m', -1)], [('d', -2), ('m', 1)], [('w', -1), ('m', 1)], [('d', -3), ('w', 1), ('d', 1)]])
         sign = rng.choice([1, -1])
         s = ''.join('%d%s' % (sign * k if k else 0, u) for u, k in parts)
         if any(u in 'mqy' for u, _ in parts):
